@@ -210,9 +210,16 @@ def signature(case):
     return None
 
 
+def f14_program():
+    """The listed known finding (F14), every run: a nested compound select, which SQLite rejects."""
+    k1 = enc.K(1)
+    lf = [("leaf", i, ("sql", 0), [k1], [{k1: i}], (0, None)) for i in (1, 2, 3)]
+    return ("xfer", ("it", 0), ("chain", ("chain", lf[0], lf[1]), lf[2]))
+
+
 def make_cases(rng, tier):
     n = 500 if tier == "quick" else 12000
-    progs = directed(rng, n // 2)
+    progs = [f14_program()] + directed(rng, n // 2)
     for _ in range(n):
         progs.append(mp.gen_mprog(rng, rng.choice([1, 2, 3, 4, 5, 7]), p_xfer=0.25, p_mat=0.15, p_opts=0.2)[0])
     cases, stats = [], {"hooks": 0, "transfer_hooks": 0, "materialize_hooks": 0, "materialize_as": 0, "rejected_at_build": 0, "iteration_join_refused": 0,
